@@ -122,6 +122,14 @@ Inductive outcome :=
 | OPanic (site : string)
 | OGap (site : string).
 
+(* the repaired applyRobustMessage (fix b3bad2c): a Config message takes effect only if it parses AND its revision is the
+   revision in force plus one — whatever the handler that proposed it was looking at *)
+Definition config_in_force (revision : N) (parsed : option config) (sv : server) : option config :=
+  match parsed with
+  | Some g => if (revision =? g_revision (sv_config sv) + 1)%N then Some g else None
+  | None => None
+  end.
+
 Definition run_handler (sv : server) (msgid : N) (act : M unit) (finish : server -> server) : outcome :=
   match act sv (RCtx msgid []) with
   | Ok (_, sv', r) => OOk (finish sv') (rev (r_out r))
@@ -166,7 +174,7 @@ Definition apply_entry (e : env) (sv : server) (en : entry) : outcome :=
                       (fun sv' => maybe_delete_session k (set_lastProcessed (session, 0%N) sv'))
       end
   | EConfig id un revision parsed =>
-      match parsed with
+      match config_in_force revision parsed sv with
       | Some g => OOk (set_config (fun _ => with_revision revision g) sv) []
       | None => OOk sv []
       end
